@@ -26,8 +26,8 @@ Fixpoint reach_round (c : lcfg) (n : nat) (marked : list nat) : list nat :=
   | 0 => marked
   | S n' =>
       reach_round c n'
-        (marked ++ filter (fun b => existsb (fun s => memb s marked) (lb_succ (nth_block c b)))
-                          (seq 0 (length (c_blocks c))))
+        (norm (marked ++ filter (fun b => existsb (fun s => memb s marked) (lb_succ (nth_block c b)))
+                                (seq 0 (length (c_blocks c)))))
   end.
 Definition h_exitb (c : lcfg) : bool :=
   let m := reach_round c (length (c_blocks c)) [c_exit c] in
@@ -37,7 +37,7 @@ Definition h_exitb (c : lcfg) : bool :=
 Fixpoint fwd_round (c : lcfg) (n : nat) (marked : list nat) : list nat :=
   match n with
   | 0 => marked
-  | S n' => fwd_round c n' (marked ++ flat_map (fun b => lb_succ (nth_block c b)) marked)
+  | S n' => fwd_round c n' (norm (marked ++ flat_map (fun b => lb_succ (nth_block c b)) marked))
   end.
 Definition all_reachedb (c : lcfg) : bool :=
   let m := fwd_round c (length (c_blocks c)) [c_entry c] in
